@@ -149,7 +149,7 @@ p["units"] += [K("h_tdigest::td_empty_reads", "quick", "empty digest: NaN / 0"),
 p = prop("C16",
          functions=["TDigest::{insert,insert_weighted,count,sum,mean,min,max,is_empty,n_centroids}", "TDigestInner::{insert_weighted,merge}", "Centroid::{fuse,mean}", "K0::{f,f_inv}"],
          bounds="states with <=2 centroids + <=2 backlog entries (hook-built), weights 0..4, integer values -8..8; K0 with delta 1.1 (total fusion) and 1000 (none); backlog sizes 0 and 10",
-         outside=["merges of more than 2 inputs (a 2+1 merge exhausts 46 GB in CBMC; the harnesses exist in the crate but are not part of any tier)", "K1 (asin: FFI), K2/K3 (ln/exp) scale functions in merge", "floating-point accumulation error on non-integer data"],
+         outside=["merges of more than 2 inputs (a 2+1 merge exhausts 46 GB in CBMC; the harnesses exist in the crate but are not part of any tier)", "K1/K2/K3 are not executed themselves (asin is FFI, ln/exp approximated): they are covered by the arbitrary-answer scale function of td_insert_merges_backlog0_anyscale for the 1+1 merge; the n handed to them is checked in C19", "floating-point accumulation error on non-integer data"],
          assumptions=TD_ASSUME + ["aggregates are observed as raw totals over centroids+backlog through verif hooks, and through count()/sum()/mean() after the merge"])
 p["units"] += [
     K("h_tdigest::td_insert_step_c0b0", "quick", "insert_weighted into the empty digest"),
@@ -161,6 +161,7 @@ p["units"] += [
     K("h_tdigest::td_merge_step_c1b1_keep", "thorough", "merge step 1+1 read-triggered, delta=1000", mem_class_gb=40, timeout_s=3600, mem_gb=50),
     K("h_tdigest::td_insert_merges_backlog0", "quick", "max_backlog_size=0, delta=1000: insert merges immediately, totals/min/max exact, no fusion", mem_class_gb=10, timeout_s=1800, mem_gb=30),
     K("h_tdigest::td_insert_merges_backlog0_fuse", "quick", "max_backlog_size=0, delta=1.1: insert merges and fuses, totals/min/max exact", mem_class_gb=10, timeout_s=1800, mem_gb=30),
+    K("h_tdigest::td_insert_merges_backlog0_anyscale", "quick", "the same merge under a scale function whose f / f_inv return ARBITRARY non-NaN values (covers K0, K1, K2, K3 and any other ScaleFunction): aggregates exact, output sorted, both fuse and keep reachable", mem_class_gb=10, timeout_s=1800, mem_gb=30),
 ]
 
 # --------------------------------------------------------------------------- C14
